@@ -17,10 +17,14 @@ NATIVE_OK = {"vh_C05_commitment_step", "vh_C05_setconfig_step", "vh_C05_commitme
              "vh_override_notify", "vh_future_once", "vh_shutdown_api", "vh_fsm_pairing"}
 
 
+# a counterexample that depends on which ready case a select picks cannot be forced natively (Go picks at random)
+SELECT_DEPENDENT = {"vh_shutdown_api"}
+
+
 def run_replay(path, quiet=False):
     v = json.load(open(path))
     h = v["harness"]
-    if h not in NATIVE_OK:
+    if h not in NATIVE_OK or h in SELECT_DEPENDENT:
         return None
     work = os.path.join(VERIF, "work", "replay")
     os.makedirs(work, exist_ok=True)
